@@ -102,6 +102,16 @@ impl<R: Shaped + Region, O: IcKind> Shaped for ColumnsRegion<R, O> {
     }
 }
 
+/// the region's push itself, with the allocator calls made INSIDE it recorded (whatever the form's closure
+/// allocates to build its argument happens before)
+#[inline(never)]
+fn mpush<R: Push<T>, T>(r: &mut R, t: T) -> R::Index {
+    let a0 = crate::alloc::allocs();
+    let i = r.push(t);
+    crate::alloc::window_add(crate::alloc::allocs() - a0);
+    i
+}
+
 fn form<R: Region>(n: &'static str, f: PushFn<R>) -> (&'static str, PushFn<R>) {
     (n, f)
 }
@@ -204,29 +214,29 @@ pub fn subjects() -> Vec<Subject> {
             type T = OwnedRegion<$e>;
             let mut c = Caps::<T>::default();
             c.forms = vec![
-                form::<T>("slice", |r, v| r.push(v.as_slice())),
-                form::<T>("ref_vec", |r, v| r.push(v)),
-                form::<T>("vec", |r, v| r.push(v.clone())),
-                form::<T>("refref_slice", |r, v| r.push(&v.as_slice())),
+                form::<T>("slice", |r, v| mpush(r, v.as_slice())),
+                form::<T>("ref_vec", |r, v| mpush(r, v)),
+                form::<T>("vec", |r, v| mpush(r, v.clone())),
+                form::<T>("refref_slice", |r, v| mpush(r, &v.as_slice())),
                 form::<T>("array", |r, v| {
-                    by_len!(v, r.push(v.as_slice()), [0 => r.push([] as [$e; 0]), 1 => r.push([v[0]]), 2 => r.push([v[0], v[1]]), 3 => r.push([v[0], v[1], v[2]])])
+                    by_len!(v, mpush(r, v.as_slice()), [0 => mpush(r, [] as [$e; 0]), 1 => mpush(r, [v[0]]), 2 => mpush(r, [v[0], v[1]]), 3 => mpush(r, [v[0], v[1], v[2]])])
                 }),
                 form::<T>("ref_array", |r, v| {
-                    by_len!(v, r.push(v.as_slice()), [0 => r.push(&([] as [$e; 0])), 1 => r.push(&[v[0]]), 2 => r.push(&[v[0], v[1]]), 3 => r.push(&[v[0], v[1], v[2]])])
+                    by_len!(v, mpush(r, v.as_slice()), [0 => mpush(r, &([] as [$e; 0])), 1 => mpush(r, &[v[0]]), 2 => mpush(r, &[v[0], v[1]]), 3 => mpush(r, &[v[0], v[1], v[2]])])
                 }),
                 form::<T>("refref_array", |r, v| {
-                    by_len!(v, r.push(v.as_slice()), [0 => r.push(&&([] as [$e; 0])), 1 => r.push(&&[v[0]]), 2 => r.push(&&[v[0], v[1]])])
+                    by_len!(v, mpush(r, v.as_slice()), [0 => mpush(r, &&([] as [$e; 0])), 1 => mpush(r, &&[v[0]]), 2 => mpush(r, &&[v[0], v[1]])])
                 }),
-                form::<T>("push_iter", |r, v| r.push(PushIter(v.clone()))),
-                form::<T>("push_iter_copied", |r, v| r.push(PushIter(v.iter().copied()))),
+                form::<T>("push_iter", |r, v| mpush(r, PushIter(v.clone()))),
+                form::<T>("push_iter_copied", |r, v| mpush(r, PushIter(v.iter().copied()))),
                 // a wrapped iterator over a read item taken from another region
                 form::<T>("push_iter_read_slice", |r, v| {
                     if v.len() > 4096 {
-                        return r.push(v.as_slice());
+                        return mpush(r, v.as_slice());
                     }
                     let mut tmp = SliceRegion::<MirrorRegion<$e>>::default();
                     let i = tmp.push(v.as_slice());
-                    r.push(PushIter(tmp.index(i).iter()))
+                    mpush(r, PushIter(tmp.index(i).iter()))
                 }),
             ];
             c.reserve_forms = vec![
@@ -249,10 +259,10 @@ pub fn subjects() -> Vec<Subject> {
         type T = StringRegion;
         let mut c = Caps::<T>::default();
         c.forms = vec![
-            form::<T>("str", |r, v| r.push(v.as_str())),
-            form::<T>("ref_string", |r, v| r.push(v)),
-            form::<T>("string", |r, v| r.push(v.clone())),
-            form::<T>("refref_str", |r, v| r.push(&v.as_str())),
+            form::<T>("str", |r, v| mpush(r, v.as_str())),
+            form::<T>("ref_string", |r, v| mpush(r, v)),
+            form::<T>("string", |r, v| mpush(r, v.clone())),
+            form::<T>("refref_str", |r, v| mpush(r, &v.as_str())),
         ];
         c.reserve_forms = vec![
             rform::<T>("str", |r, vs| r.reserve_items(vs.iter().map(|v| v.as_str()))),
@@ -273,9 +283,9 @@ pub fn subjects() -> Vec<Subject> {
             type T = MirrorRegion<$e>;
             let mut c = Caps::<T>::default();
             c.forms = vec![
-                form::<T>("owned", |r, v| r.push(*v)),
-                form::<T>("ref", |r, v| r.push(v)),
-                form::<T>("refref", |r, v| r.push(&v)),
+                form::<T>("owned", |r, v| mpush(r, *v)),
+                form::<T>("ref", |r, v| mpush(r, v)),
+                form::<T>("refref", |r, v| mpush(r, &v)),
             ];
             c.reserve_forms = vec![
                 rform::<T>("owned", |r, vs| r.reserve_items(vs.iter().copied())),
@@ -300,9 +310,9 @@ pub fn subjects() -> Vec<Subject> {
         type T = Vec<u32>;
         let mut c = Caps::<T>::default();
         c.forms = vec![
-            form::<T>("owned", |r, v| <T as Push<u32>>::push(r, *v)),
-            form::<T>("ref", |r, v| <T as Push<&u32>>::push(r, v)),
-            form::<T>("refref", |r, v| <T as Push<&&u32>>::push(r, &v)),
+            form::<T>("owned", |r, v| mpush::<T, u32>(r, *v)),
+            form::<T>("ref", |r, v| mpush::<T, &u32>(r, v)),
+            form::<T>("refref", |r, v| mpush::<T, &&u32>(r, &v)),
         ];
         c.reserve_forms = vec![rform::<T>("any", |r, vs| ReserveItems::reserve_items(r, vs.iter()))];
         clone_caps!(c, T);
@@ -315,9 +325,9 @@ pub fn subjects() -> Vec<Subject> {
         type T = Vec<String>;
         let mut c = Caps::<T>::default();
         c.forms = vec![
-            form::<T>("owned", |r, v| <T as Push<String>>::push(r, v.clone())),
-            form::<T>("ref", |r, v| <T as Push<&String>>::push(r, v)),
-            form::<T>("refref", |r, v| <T as Push<&&String>>::push(r, &v)),
+            form::<T>("owned", |r, v| mpush::<T, String>(r, v.clone())),
+            form::<T>("ref", |r, v| mpush::<T, &String>(r, v)),
+            form::<T>("refref", |r, v| mpush::<T, &&String>(r, &v)),
         ];
         c.reserve_forms = vec![rform::<T>("any", |r, vs| ReserveItems::reserve_items(r, vs.iter()))];
         clone_caps!(c, T);
@@ -332,10 +342,10 @@ pub fn subjects() -> Vec<Subject> {
         type T = OptionRegion<StringRegion>;
         let mut c = Caps::<T>::default();
         c.forms = vec![
-            form::<T>("ref", |r, v| r.push(v)),
-            form::<T>("owned", |r, v| r.push(v.clone())),
-            form::<T>("opt_str", |r, v| r.push(v.as_deref())),
-            form::<T>("opt_ref_string", |r, v| r.push(v.as_ref())),
+            form::<T>("ref", |r, v| mpush(r, v)),
+            form::<T>("owned", |r, v| mpush(r, v.clone())),
+            form::<T>("opt_str", |r, v| mpush(r, v.as_deref())),
+            form::<T>("opt_ref_string", |r, v| mpush(r, v.as_ref())),
         ];
         c.reserve_forms = vec![
             rform::<T>("ref", |r, vs| r.reserve_items(vs.iter())),
@@ -350,9 +360,9 @@ pub fn subjects() -> Vec<Subject> {
         type T = OptionRegion<MirrorRegion<u8>>;
         let mut c = Caps::<T>::default();
         c.forms = vec![
-            form::<T>("ref", |r, v| r.push(v)),
-            form::<T>("owned", |r, v| r.push(*v)),
-            form::<T>("opt_ref", |r, v| r.push(v.as_ref())),
+            form::<T>("ref", |r, v| mpush(r, v)),
+            form::<T>("owned", |r, v| mpush(r, *v)),
+            form::<T>("opt_ref", |r, v| mpush(r, v.as_ref())),
         ];
         c.reserve_forms = vec![
             rform::<T>("ref", |r, vs| r.reserve_items(vs.iter())),
@@ -367,10 +377,10 @@ pub fn subjects() -> Vec<Subject> {
         type T = ResultRegion<StringRegion, MirrorRegion<u8>>;
         let mut c = Caps::<T>::default();
         c.forms = vec![
-            form::<T>("ref", |r, v| r.push(v)),
-            form::<T>("owned", |r, v| r.push(v.clone())),
-            form::<T>("as_ref", |r, v| r.push(v.as_ref())),
-            form::<T>("str", |r, v| r.push(v.as_ref().map(|s| s.as_str()).map_err(|e| *e))),
+            form::<T>("ref", |r, v| mpush(r, v)),
+            form::<T>("owned", |r, v| mpush(r, v.clone())),
+            form::<T>("as_ref", |r, v| mpush(r, v.as_ref())),
+            form::<T>("str", |r, v| mpush(r, v.as_ref().map(|s| s.as_str()).map_err(|e| *e))),
         ];
         c.reserve_forms = vec![
             rform::<T>("ref", |r, vs| r.reserve_items(vs.iter())),
@@ -385,9 +395,9 @@ pub fn subjects() -> Vec<Subject> {
         type T = ResultRegion<OwnedRegion<u8>, OwnedRegion<u8>>;
         let mut c = Caps::<T>::default();
         c.forms = vec![
-            form::<T>("ref", |r, v| r.push(v)),
-            form::<T>("owned", |r, v| r.push(v.clone())),
-            form::<T>("slices", |r, v| r.push(v.as_ref().map(|s| s.as_slice()).map_err(|e| e.as_slice()))),
+            form::<T>("ref", |r, v| mpush(r, v)),
+            form::<T>("owned", |r, v| mpush(r, v.clone())),
+            form::<T>("slices", |r, v| mpush(r, v.as_ref().map(|s| s.as_slice()).map_err(|e| e.as_slice()))),
         ];
         c.reserve_forms = vec![
             rform::<T>("ref", |r, vs| r.reserve_items(vs.iter())),
@@ -403,9 +413,9 @@ pub fn subjects() -> Vec<Subject> {
         type T = OptionRegion<Vec<u32>>;
         let mut c = Caps::<T>::default();
         c.forms = vec![
-            form::<T>("ref", |r, v| r.push(v)),
-            form::<T>("owned", |r, v| r.push(*v)),
-            form::<T>("opt_ref", |r, v| r.push(v.as_ref())),
+            form::<T>("ref", |r, v| mpush(r, v)),
+            form::<T>("owned", |r, v| mpush(r, *v)),
+            form::<T>("opt_ref", |r, v| mpush(r, v.as_ref())),
         ];
         c.reserve_forms = vec![
             rform::<T>("ref", |r, vs| r.reserve_items(vs.iter())),
@@ -419,9 +429,9 @@ pub fn subjects() -> Vec<Subject> {
         type T = ResultRegion<Vec<u32>, Vec<String>>;
         let mut c = Caps::<T>::default();
         c.forms = vec![
-            form::<T>("ref", |r, v| r.push(v)),
-            form::<T>("owned", |r, v| r.push(v.clone())),
-            form::<T>("as_ref", |r, v| r.push(v.as_ref())),
+            form::<T>("ref", |r, v| mpush(r, v)),
+            form::<T>("owned", |r, v| mpush(r, v.clone())),
+            form::<T>("as_ref", |r, v| mpush(r, v.as_ref())),
         ];
         c.reserve_forms = vec![
             rform::<T>("ref", |r, vs| r.reserve_items(vs.iter())),
@@ -435,10 +445,10 @@ pub fn subjects() -> Vec<Subject> {
         type T = TupleABRegion<MirrorRegion<u64>, StringRegion>;
         let mut c = Caps::<T>::default();
         c.forms = vec![
-            form::<T>("ref", |r, v| r.push(v)),
-            form::<T>("owned", |r, v| r.push(v.clone())),
-            form::<T>("mixed", |r, v| r.push((&v.0, v.1.as_str()))),
-            form::<T>("refs", |r, v| r.push((&v.0, &v.1))),
+            form::<T>("ref", |r, v| mpush(r, v)),
+            form::<T>("owned", |r, v| mpush(r, v.clone())),
+            form::<T>("mixed", |r, v| mpush(r, (&v.0, v.1.as_str()))),
+            form::<T>("refs", |r, v| mpush(r, (&v.0, &v.1))),
         ];
         c.reserve_forms = vec![
             rform::<T>("ref", |r, vs| r.reserve_items(vs.iter())),
@@ -453,9 +463,9 @@ pub fn subjects() -> Vec<Subject> {
         type T = TupleABCRegion<MirrorRegion<u8>, OwnedRegion<()>, StringRegion>;
         let mut c = Caps::<T>::default();
         c.forms = vec![
-            form::<T>("ref", |r, v| r.push(v)),
-            form::<T>("owned", |r, v| r.push(v.clone())),
-            form::<T>("mixed", |r, v| r.push((v.0, v.1.as_slice(), &v.2))),
+            form::<T>("ref", |r, v| mpush(r, v)),
+            form::<T>("owned", |r, v| mpush(r, v.clone())),
+            form::<T>("mixed", |r, v| mpush(r, (v.0, v.1.as_slice(), &v.2))),
         ];
         c.reserve_forms = vec![rform::<T>("ref", |r, vs| r.reserve_items(vs.iter()))];
         clone_caps!(c, T);
@@ -467,9 +477,9 @@ pub fn subjects() -> Vec<Subject> {
         type T = OptionRegion<ResultRegion<StringRegion, MirrorRegion<u8>>>;
         let mut c = Caps::<T>::default();
         c.forms = vec![
-            form::<T>("ref", |r, v| r.push(v)),
-            form::<T>("owned", |r, v| r.push(v.clone())),
-            form::<T>("opt_ref", |r, v| r.push(v.as_ref())),
+            form::<T>("ref", |r, v| mpush(r, v)),
+            form::<T>("owned", |r, v| mpush(r, v.clone())),
+            form::<T>("opt_ref", |r, v| mpush(r, v.as_ref())),
         ];
         c.reserve_forms = vec![rform::<T>("ref", |r, vs| r.reserve_items(vs.iter()))];
         clone_caps!(c, T);
@@ -483,17 +493,17 @@ pub fn subjects() -> Vec<Subject> {
     macro_rules! slice_forms {
         ($t:ty, $e:ty) => {
             vec![
-                form::<$t>("ref_vec", |r, v| r.push(v)),
-                form::<$t>("slice", |r, v| r.push(v.as_slice())),
-                form::<$t>("vec", |r, v| r.push(v.clone())),
-                form::<$t>("refref_vec", |r, v| r.push(&v)),
+                form::<$t>("ref_vec", |r, v| mpush(r, v)),
+                form::<$t>("slice", |r, v| mpush(r, v.as_slice())),
+                form::<$t>("vec", |r, v| mpush(r, v.clone())),
+                form::<$t>("refref_vec", |r, v| mpush(r, &v)),
                 form::<$t>("array", |r, v| {
-                    by_len!(v, r.push(v.as_slice()), [0 => r.push([] as [$e; 0]), 1 => r.push([v[0].clone()]), 2 => r.push([v[0].clone(), v[1].clone()]), 3 => r.push([v[0].clone(), v[1].clone(), v[2].clone()])])
+                    by_len!(v, mpush(r, v.as_slice()), [0 => mpush(r, [] as [$e; 0]), 1 => mpush(r, [v[0].clone()]), 2 => mpush(r, [v[0].clone(), v[1].clone()]), 3 => mpush(r, [v[0].clone(), v[1].clone(), v[2].clone()])])
                 }),
                 form::<$t>("ref_array", |r, v| {
-                    by_len!(v, r.push(v.as_slice()), [0 => r.push(&([] as [$e; 0])), 1 => r.push(&[v[0].clone()]), 2 => r.push(&[v[0].clone(), v[1].clone()])])
+                    by_len!(v, mpush(r, v.as_slice()), [0 => mpush(r, &([] as [$e; 0])), 1 => mpush(r, &[v[0].clone()]), 2 => mpush(r, &[v[0].clone(), v[1].clone()])])
                 }),
-                form::<$t>("vec_of_refs", |r, v| r.push(v.iter().collect::<Vec<&$e>>())),
+                form::<$t>("vec_of_refs", |r, v| mpush(r, v.iter().collect::<Vec<&$e>>())),
             ]
         };
     }
@@ -547,10 +557,10 @@ pub fn subjects() -> Vec<Subject> {
         type T = SliceRegion<CollapseSequence<Cip<StringRegion>>, IndexOptimized>;
         let mut c = Caps::<T>::default();
         c.forms = vec![
-            form::<T>("ref_vec", |r, v| r.push(v)),
-            form::<T>("slice", |r, v| r.push(v.as_slice())),
-            form::<T>("vec", |r, v| r.push(v.clone())),
-            form::<T>("vec_of_strs", |r, v| r.push(v.iter().map(String::as_str).collect::<Vec<&str>>())),
+            form::<T>("ref_vec", |r, v| mpush(r, v)),
+            form::<T>("slice", |r, v| mpush(r, v.as_slice())),
+            form::<T>("vec", |r, v| mpush(r, v.clone())),
+            form::<T>("vec_of_strs", |r, v| mpush(r, v.iter().map(String::as_str).collect::<Vec<&str>>())),
         ];
         // no ReserveItems: CollapseSequence does not implement it
         clone_caps!(c, T);
@@ -565,9 +575,9 @@ pub fn subjects() -> Vec<Subject> {
     macro_rules! string_like_forms {
         ($t:ty) => {
             vec![
-                form::<$t>("str", |r, v| r.push(v.as_str())),
-                form::<$t>("ref_string", |r, v| r.push(v)),
-                form::<$t>("string", |r, v| r.push(v.clone())),
+                form::<$t>("str", |r, v| mpush(r, v.as_str())),
+                form::<$t>("ref_string", |r, v| mpush(r, v)),
+                form::<$t>("string", |r, v| mpush(r, v.clone())),
             ]
         };
     }
@@ -622,9 +632,9 @@ pub fn subjects() -> Vec<Subject> {
             type T = $t;
             let mut c = Caps::<T>::default();
             c.forms = vec![
-                form::<T>("slice", |r, v| r.push(v.as_slice())),
-                form::<T>("ref_vec", |r, v| r.push(v)),
-                form::<T>("vec", |r, v| r.push(v.clone())),
+                form::<T>("slice", |r, v| mpush(r, v.as_slice())),
+                form::<T>("ref_vec", |r, v| mpush(r, v)),
+                form::<T>("vec", |r, v| mpush(r, v.clone())),
             ];
             c.reserve_forms = bytes_like_reserve!(T, $res);
             clone_caps!(c, T);
@@ -643,7 +653,7 @@ pub fn subjects() -> Vec<Subject> {
     {
         type T = CollapseSequence<MirrorRegion<u8>>;
         let mut c = Caps::<T>::default();
-        c.forms = vec![form::<T>("owned", |r, v| r.push(*v))];
+        c.forms = vec![form::<T>("owned", |r, v| mpush(r, *v))];
         clone_caps!(c, T);
         serde_caps!(c, T);
         item_caps!(c, T);
@@ -653,9 +663,9 @@ pub fn subjects() -> Vec<Subject> {
         type T = TupleABRegion<CollapseSequence<StringRegion>, CollapseSequence<OwnedRegion<u8>>>;
         let mut c = Caps::<T>::default();
         c.forms = vec![
-            form::<T>("ref", |r, v| r.push(v)),
-            form::<T>("owned", |r, v| r.push(v.clone())),
-            form::<T>("mixed", |r, v| r.push((v.0.as_str(), v.1.as_slice()))),
+            form::<T>("ref", |r, v| mpush(r, v)),
+            form::<T>("owned", |r, v| mpush(r, v.clone())),
+            form::<T>("mixed", |r, v| mpush(r, (v.0.as_str(), v.1.as_slice()))),
         ];
         clone_caps!(c, T);
         serde_caps!(c, T);
@@ -668,22 +678,22 @@ pub fn subjects() -> Vec<Subject> {
         ($t:ty, $e:ty, true) => {{
             let mut f = columns_forms!($t, $e, false);
             f.extend(vec![
-                form::<$t>("slice", |r, v| r.push(v.as_slice())),
-                form::<$t>("ref_vec", |r, v| r.push(v)),
+                form::<$t>("slice", |r, v| mpush(r, v.as_slice())),
+                form::<$t>("ref_vec", |r, v| mpush(r, v)),
                 form::<$t>("ref_array", |r, v| {
-                    by_len!(v, r.push(v.as_slice()), [0 => r.push(&([] as [$e; 0])), 1 => r.push(&[v[0].clone()]), 2 => r.push(&[v[0].clone(), v[1].clone()]), 3 => r.push(&[v[0].clone(), v[1].clone(), v[2].clone()])])
+                    by_len!(v, mpush(r, v.as_slice()), [0 => mpush(r, &([] as [$e; 0])), 1 => mpush(r, &[v[0].clone()]), 2 => mpush(r, &[v[0].clone(), v[1].clone()]), 3 => mpush(r, &[v[0].clone(), v[1].clone(), v[2].clone()])])
                 }),
-                form::<$t>("push_iter_refs", |r, v| r.push(PushIter(v.iter()))),
+                form::<$t>("push_iter_refs", |r, v| mpush(r, PushIter(v.iter()))),
             ]);
             f
         }};
         ($t:ty, $e:ty, false) => {
             vec![
-                form::<$t>("vec", |r, v| r.push(v.clone())),
+                form::<$t>("vec", |r, v| mpush(r, v.clone())),
                 form::<$t>("array", |r, v| {
-                    by_len!(v, r.push(v.clone()), [0 => r.push([] as [$e; 0]), 1 => r.push([v[0].clone()]), 2 => r.push([v[0].clone(), v[1].clone()]), 3 => r.push([v[0].clone(), v[1].clone(), v[2].clone()])])
+                    by_len!(v, mpush(r, v.clone()), [0 => mpush(r, [] as [$e; 0]), 1 => mpush(r, [v[0].clone()]), 2 => mpush(r, [v[0].clone(), v[1].clone()]), 3 => mpush(r, [v[0].clone(), v[1].clone(), v[2].clone()])])
                 }),
-                form::<$t>("push_iter_owned", |r, v| r.push(PushIter(v.clone()))),
+                form::<$t>("push_iter_owned", |r, v| mpush(r, PushIter(v.clone()))),
             ]
         };
     }
